@@ -133,7 +133,7 @@ var (
 	asciiWords = []string{"", "a", "b", "abc", "hello world", "x y", "Zed", "0", "42", "true", "null", "a-b_c", "end."}
 	htmlWords  = []string{"<", ">", "&", "\"", "'", "<b>", "a&b", "</script>", "&amp;", "&lt;", "x<y>z", "it's", "\"q\"", "<a href='x'>"}
 	uniWords   = []string{"é", "日本", "ü ö", "π≈3", "𝄞", "a b", " ", "naïve"}
-	ctlWords   = []string{"a\nb", "a\tb", "\r\n", "x\\y", "back\\slash", "tab\t"}
+	ctlWords   = []string{"a\nb", "a\tb", "\r\n", "x\\y", "back\\slash", "tab\t", "C:\\", "\\", "end\\\\", "'\\", "\\'"}
 )
 
 func (g *G) StringValue() string {
